@@ -137,6 +137,14 @@ func (m *M) callFn(fn *ssa.Function, args []Value, env []Value, retTo ssa.Value,
 		}
 		return
 	}
+	// 2b. an explicit verif:stub of the harness wins over an engine intrinsic
+	if ex.Cfg.Stubs[name] {
+		ex.mu.Lock()
+		ex.StubHit["havoc "+name]++
+		ex.mu.Unlock()
+		m.setResult(retTo, m.havocResults(fn))
+		return
+	}
 	// 3. intrinsics
 	if intr, ok := intrinsics[name]; ok {
 		ex.mu.Lock()
